@@ -178,7 +178,7 @@ static void lincomb_counts(size_t n) {
 struct NullSolver final : bspline::interpolation::internal::ISolver<Real> {
   size_t n;
   std::vector<Real> m, bb, xx;
-  explicit NullSolver(size_t p) : n(p), m(p * p), bb(p), xx(p) {}
+  explicit NullSolver(size_t p) : n(p), m(p * p, Real(0)), bb(p, Real(0)), xx(p, Real(0)) {}
   Real &M(size_t i, size_t j) override { return m.at(i * n + j); }
   Real &b(size_t i) override { return bb.at(i); }
   Real &x(size_t i) override { return xx.at(i); }
